@@ -174,8 +174,8 @@ pub enum ObsPolicy {
     Scaled,
 }
 
-pub struct WSim<'a, E: Env> {
-    pub env: &'a E,
+pub struct WSim<E: Env + Clone> {
+    pub env: E,
     pub core: Option<Hypercore>,
     pub model: ListModel,
     pub step: usize,
@@ -188,16 +188,16 @@ pub struct WSim<'a, E: Env> {
     pub last_touched: (u64, u64),
 }
 
-impl<'a, E: Env> WSim<'a, E> {
+impl<E: Env + Clone> WSim<E> {
     /// Create a fresh writer core.
-    pub fn create(env: &'a E, policy: ObsPolicy) -> Result<Self, Failure> {
+    pub fn create(env: &E, policy: ObsPolicy) -> Result<Self, Failure> {
         let core = match env.create(hc::test_keypair()) {
             Ok(Ok(c)) => c,
             Ok(Err(e)) => return Err(Failure::new(format!("create-error:{}", err_kind(&e)), format!("creating a core failed: {e}"))),
             Err(p) => return Err(panic_failure("create", &p)),
         };
         Ok(WSim {
-            env,
+            env: env.clone(),
             core: Some(core),
             model: ListModel::new(),
             step: 0,
@@ -207,6 +207,21 @@ impl<'a, E: Env> WSim<'a, E> {
             clears: 0,
             last_touched: (0, 0),
         })
+    }
+
+    /// Attach to an already opened core whose state is `model`.
+    pub fn attach(env: &E, core: Hypercore, model: ListModel, policy: ObsPolicy) -> Self {
+        WSim {
+            env: env.clone(),
+            core: Some(core),
+            model,
+            step: 0,
+            policy,
+            check_contig: false,
+            reopens: 0,
+            clears: 0,
+            last_touched: (0, 0),
+        }
     }
 
     pub fn core(&mut self) -> &mut Hypercore {
